@@ -15,7 +15,7 @@ TECHNIQUE = "bounded exhaustive enumeration of codec layouts/values/orders again
 RULE = ("int<->bytes: sizes 0..9 and 16..257 x (all values for size<=2, boundary alphabet above); single fields: every contiguous mask of "
         "width 1..72 (and 152, 256, 264, 512) at bit alignment 0..7 x offsets {0,1,5} x trailing bytes {0,2} x prior content {00,FF,A5} outside the field "
         "x values (exhaustive up to the tier's width, alphabet above); 2 and 3 non-overlapping fields x all supply orders; split fields (two runs of bits with a hole, a second field living in the hole) x 4x4x5 run widths x 4 alignments; blobs "
-        "b/w/dw x lengths 0..4 x offsets, alone and mixed with a bit field; 2 and 3 blobs of every kind combination plus a bit field in every supply order; layout entries spelled as lists and as tuples (every single-field case both ways, multi-field layouts mixed), blob kind strings as literals and built at run time. A case is non-trivial when the value or the prior "
+        "b/w/dw x lengths 0..4 x offsets, alone and mixed with a bit field, the blob given as bytearray / bytes / memoryview / list / tuple; 2 and 3 blobs of every kind combination plus a bit field in every supply order; layout entries spelled as lists and as tuples (every single-field case both ways, multi-field layouts mixed), blob kind strings as literals and built at run time. A case is non-trivial when the value or the prior "
         "content is non-zero; distinct = distinct (kind, layout, value, prior, order) tuples.")
 ASSUMPTIONS = [
     "oracle: vf/spec/bits.py (int.from_bytes of the whole buffer, one shift, one mask)",
@@ -176,6 +176,17 @@ def run_case(case, obs=None):
         if bytes(buf) != exp:
             out.append(("encode_blob", "%s len=%d off=%d order=%r prior=%s -> %s expected %s"
                         % (bk, length, offset, order, bytes(prior).hex(), bytes(buf).hex(), exp.hex())))
+        # the blob handed over in other containers: bytes, a memoryview, a list / tuple of ints
+        for cname, conv in (("bytes", bytes), ("memoryview", memoryview), ("list", list), ("tuple", tuple)):
+            d2 = dict(data, blob=conv(value))
+            buf2 = bytearray(prior)
+            try:
+                cv.encode_dict({k: d2[k] for k in order}, lay, buf2)
+            except Exception as e:   # noqa: BLE001
+                out.append(("encode_blob_container/%s" % cname, "%s len=%d off=%d: blob given as %s: encode raised %s: %s" % (bk, length, offset, cname, type(e).__name__, e)))
+                continue
+            if bytes(buf2) != exp:
+                out.append(("encode_blob_container/%s" % cname, "%s len=%d off=%d: blob given as %s -> %s expected %s" % (bk, length, offset, cname, bytes(buf2).hex(), exp.hex())))
         res = {}
         cv.decode_bits(bytearray(exp), {k: lay[k] for k in order}, res)
         if bytes(res.get("blob", b"?")) != value or (with_bits and res.get("f") != 0xABC):
